@@ -139,6 +139,9 @@ Section RoundTrip.
     H_func_body : (bs_func F <= body_ctx F)%N;
     H_call_default : (bs_call F <= default_ctx F)%N;
     H_alias_default : (alias_ctx F < default_ctx F)%N;
+    (* an annotation is read by `expr()`: calls (hence lambdas) and aliased expressions are parenthesised *)
+    H_call_annot : (bs_call F <= annot_ctx F)%N;
+    H_alias_annot : (alias_ctx F < annot_ctx F)%N;
   }.
   Hypothesis C : compat_facts.
 
@@ -369,9 +372,9 @@ Section RoundTrip.
   (* weaker than every operator: a call or a lambda is an operand only in parentheses *)
   Definition is_low (e : expr) : bool := match e with ECall _ _ | EFunc _ _ _ => true | _ => false end.
 
-  (* `rest` begins with something that ends every expression: a closer, a separator, or nothing *)
+  (* `rest` begins with something that ends every expression: a closer, a separator, a line break, or nothing *)
   Definition closes (rest : list tok) : Prop :=
-    match rest with [] => True | (TClose _ | TComma | TPipe | TArrow) :: _ => True | _ => False end.
+    match rest with [] => True | (TClose _ | TComma | TPipe | TArrow | TNL _) :: _ => True | _ => False end.
   (* `rest` does not glue a range onto what precedes it *)
   Definition norange (rest : list tok) : Prop :=
     match rest with TRg true _ :: _ => False | _ => True end.
@@ -422,7 +425,7 @@ Section RoundTrip.
   (* the operator loop stops at `rest` *)
   Lemma loop_stop f p e rest : stop (Some p) rest -> q_loop (par T (S f)) p e rest = Some (e, rest).
   Proof.
-    intros [_ H]. cbn [par step q_loop]. destruct rest as [|[a|s un|bl br|k|k| | | |n|n| | ] r]; try reflexivity.
+    intros [_ H]. cbn [par step q_loop]. destruct rest as [|[a|s un|bl br|k|k| | | |n|n| | |i|w| ] r]; try reflexivity.
     destruct (bin_of_sym T s) as [o'|]; [|reflexivity]. destruct H as [_ H].
     destruct (Nat.leb_spec p (lbp T o')); [lia | reflexivity].
   Qed.
@@ -474,8 +477,8 @@ Section RoundTrip.
   Lemma range_of_unary P ts x rest :
     p_unary T P ts = Some (x, rest) -> not_rng_head ts -> norange rest -> p_range T P ts = Some (x, rest).
   Proof.
-    intros H Hh Hn. unfold p_range. destruct ts as [|[a|s un|bl br|k|k| | | |n|n| | ] r]; try contradiction; rewrite H;
-      (destruct rest as [|[a'|s' un'|bl' br'|k'|k'| | | |n'|n'| | ] r']; try reflexivity; destruct bl'; [contradiction | reflexivity]).
+    intros H Hh Hn. unfold p_range. destruct ts as [|[a|s un|bl br|k|k| | | |n|n| | |i|w| ] r]; try contradiction; rewrite H;
+      (destruct rest as [|[a'|s' un'|bl' br'|k'|k'| | | |n'|n'| | |i'|w'| ] r']; try reflexivity; destruct bl'; [contradiction | reflexivity]).
   Qed.
 
   Lemma unary_of_term P ts x rest :
@@ -991,7 +994,7 @@ Section RoundTrip.
     stop (Some (rbp T o)) rest -> stop (edge st c) rest.
   Proof.
     intros Ho Hoc Hr [Hn Hs]. split; [exact Hn|]. unfold edge.
-    destruct rest as [|[a|s un|bl br|k|k| | | |n|n| | ] rest']; try exact I.
+    destruct rest as [|[a|s un|bl br|k|k| | | |n|n| | |i|w| ] rest']; try exact I.
     destruct (bin_of_sym T s) as [o'|]; [|exact I]. destruct Hs as [Ho' Hlt].
     destruct c as [a0|o2 l2 r2|u x|l r|l|r| |f args|k es|n x|n x|ps ds b]; try exact I.
     destruct (needs F st (EBin o2 l2 r2)) eqn:EN; [exact I|]. split; [exact Ho'|].
@@ -1257,11 +1260,11 @@ Section RoundTrip.
     induction A as [|t A IH]; [cbn; rewrite orb_false_r; reflexivity|].
     destruct A as [|t2 A'].
     - cbn [app]. destruct B as [|b B'].
-      + destruct t as [a| | | | | | | | | | | ]; try reflexivity. destruct a; reflexivity.
+      + destruct t as [a| | | | | | | | | | | | | | ]; try reflexivity. destruct a; reflexivity.
       + rewrite glued_cons2. generalize (glued (b :: B')). intro y.
-        destruct t as [a|s un|bl br|k|k| | | |n|n| | ]; try (destruct y; reflexivity).
+        destruct t as [a|s un|bl br|k|k| | | |n|n| | |i|w| ]; try (destruct y; reflexivity).
         destruct a; try (destruct y; reflexivity).
-        destruct b as [a2|s2 un2|bl2 br2|k2|k2| | | |n2|n2| | ]; try (destruct y; reflexivity).
+        destruct b as [a2|s2 un2|bl2 br2|k2|k2| | | |n2|n2| | |i2|w2| ]; try (destruct y; reflexivity).
         destruct bl2; destruct y; reflexivity.
     - change ((t :: t2 :: A') ++ B) with (t :: t2 :: (A' ++ B)). rewrite !glued_cons2.
       change (t2 :: A' ++ B) with ((t2 :: A') ++ B). rewrite IH.
@@ -1275,13 +1278,13 @@ Section RoundTrip.
 
   Lemma glued_cons t ts : (forall s, t <> TA (AParam s)) -> glued (t :: ts) = glued ts.
   Proof.
-    intro H. cbn [glued]. destruct t as [a|s un|bl br|k|k| | | |n|n| | ]; try reflexivity.
+    intro H. cbn [glued]. destruct t as [a|s un|bl br|k|k| | | |n|n| | |i|w| ]; try reflexivity.
     destruct a; try reflexivity. exfalso. apply (H s). reflexivity.
   Qed.
 
   Lemma ends_param_snoc ts t : (forall s, t <> TA (AParam s)) -> ends_param (ts ++ [t]) = false.
   Proof.
-    intro H. unfold ends_param. rewrite last_last. destruct t as [a| | | | | | | | | | | ]; try reflexivity.
+    intro H. unfold ends_param. rewrite last_last. destruct t as [a| | | | | | | | | | | | | | ]; try reflexivity.
     destruct a; try reflexivity. exfalso. apply (H s). reflexivity.
   Qed.
   Lemma ends_param_cons t t2 ts : ends_param (t :: t2 :: ts) = ends_param (t2 :: ts).
@@ -1296,7 +1299,7 @@ Section RoundTrip.
   Proof. cbn [wrap]. change (TOpen GPipe :: ts ++ [TClose GPipe]) with ((TOpen GPipe :: ts) ++ [TClose GPipe]). apply ends_param_snoc. discriminate. Qed.
 
   Lemma ends_close_not_param ts : ends_close ts = true -> ends_param ts = false.
-  Proof. unfold ends_close, ends_param. destruct (last ts TComma) as [a| | | |k| | | | | | | ]; try discriminate; reflexivity. Qed.
+  Proof. unfold ends_close, ends_param. destruct (last ts TComma) as [a| | | |k| | | | | | | | | | ]; try discriminate; reflexivity. Qed.
 
   (* no printed expression begins with a `..` that binds to the left *)
   Lemma head_not_rng e st : wf e = true -> ops_ok e = true -> starts_rng (fmt F e st) = false.
@@ -1477,6 +1480,20 @@ Section RoundTrip.
 
   (* an expression written where the parser reads `expr()` (an annotation), at any context strength that
      parenthesises calls and aliased expressions *)
+  Lemma expr_at_rest c e rest : (bs_call F <= c)%N -> (alias_ctx F < c)%N ->
+    wf e = true -> ops_ok e = true -> is_named e = false -> closes rest ->
+    exists g, q_bin (par T g) 0 (fmt F e (c, PUnspec, false) ++ rest) = Some (e, rest).
+  Proof.
+    intros Hc Ha Hw Ho Hn Hcl.
+    destruct (all_good e Hw Ho) as [_ G]. specialize (G Hn).
+    destruct (G (c, PUnspec, false) ltac:(apply okst_lt; exact Ha)) as [_ [_ [Gb _]]].
+    apply (Gb 0 rest (e, rest) 1).
+    - apply call_wrapped. exact Hc.
+    - intros; lia.
+    - apply closes_stop. exact Hcl.
+    - apply loop_closes. exact Hcl.
+  Qed.
+
   Theorem roundtrip_expr_at c e : (bs_call F <= c)%N -> (alias_ctx F < c)%N ->
     wf e = true -> ops_ok e = true -> is_named e = false ->
     exists f0, forall f, f0 <= f -> parse_expr T f (fmt F e (c, PUnspec, false)) = Some e.
@@ -1511,6 +1528,8 @@ Qed.
 Lemma compat_sound F T nb nu : compat F T nb nu = true -> compat_facts F T nb nu.
 Proof.
   unfold compat. intro H.
+  apply andb_true_iff in H as [H Caa].
+  apply andb_true_iff in H as [H Cca].
   apply andb_true_iff in H as [H Cad].
   apply andb_true_iff in H as [H Ccd].
   apply andb_true_iff in H as [H Cfb].
@@ -1573,4 +1592,6 @@ Proof.
   - apply N.leb_le; exact Cfb.
   - apply N.leb_le; exact Ccd.
   - apply N.ltb_lt; exact Cad.
+  - apply N.leb_le; exact Cca.
+  - apply N.ltb_lt; exact Caa.
 Qed.
